@@ -674,6 +674,14 @@ func (b *pickfirstBalancer) updateSubConnState(sd *scData, newState balancer.Sub
 			// TRANSIENT_FAILURE until it's READY. See A62.
 			if sd.effectiveState != connectivity.TransientFailure {
 				sd.effectiveState = connectivity.Connecting
+				// A first pass that was started while the balancer was in
+				// TRANSIENT_FAILURE (resolver update after all addresses
+				// failed) may contain SubConns for new addresses. Their
+				// CONNECTING updates must not take the balancer out of
+				// TRANSIENT_FAILURE: it stays there until a SubConn is READY.
+				if b.state == connectivity.TransientFailure {
+					return
+				}
 				b.updateBalancerState(balancer.State{
 					ConnectivityState: connectivity.Connecting,
 					Picker:            &picker{err: balancer.ErrNoSubConnAvailable},
